@@ -458,9 +458,9 @@ Proof.
                 (set_first (canon_meta r cs) (s_idx sn' + 1)) (s_idx sn') cs'
                 eq_refl Hmax'' Hcont'' eq_refl Hd) as Hum.
   (* assemble *)
-  unfold saveOp_apply. fold h1. rewrite Hs1. rewrite Hs2. cbn [w_snap w_mf w_ents w_meta].
+  unfold saveOp_apply. rewrite Hwhs. change (w_hs (canon_w rw r cs)) with (r_hs r). fold h1. rewrite Hs1. rewrite Hs2. cbn [w_snap w_mf w_ents w_meta].
   unfold st1. cbn [w_snap w_mf w_ents w_meta w_hs]. rewrite Hum. cbn [w_meta].
-  set (persist := match ws_hs sv with
+  set (persist := match hs with
                   | Some _ => true
                   | None => match ws_snap sv with Some _ => true | None => false end
                   end).
@@ -469,12 +469,6 @@ Proof.
   assert (Hmeta' : meta' = canon_meta r' cs').
   { subst meta'. unfold canon_meta, r_last, r_sidx. rewrite Hr'snap. cbn.
     rewrite Hspec. reflexivity. }
-  assert (Hpers : match ws_hs sv with
-                  | Some _ => match ws_snap sv with | _ => true end
-                  | None => match ws_snap sv with Some _ => true | None => false end
-                  end = persist).
-  { subst persist. destruct (ws_hs sv); destruct (ws_snap sv); reflexivity. }
-  rewrite Hpers.
   eexists. eexists. exists cs'. split; [reflexivity|].
   split.
   { apply Forall_app. split; [assumption|]. apply Forall_app. split; [assumption|].
@@ -486,7 +480,7 @@ Proof.
     destruct persist; reflexivity. }
   rewrite Hrows.
   assert (Hhs' : (if persist then raise h1 snap else k_hs rw) = r_hs r').
-  { rewrite Hspec. cbn [save_spec r_hs]. fold h1. subst persist. rewrite Hwhs.
+  { rewrite Hspec. cbn [save_spec r_hs]. fold h1. subst persist.
     destruct hs as [h|]; [reflexivity|].
     destruct (ws_snap sv) eqn:Ews; [reflexivity|].
     assert (snap = None) by (apply Hwsn; reflexivity). subst snap. cbn [raise]. subst h1. exact Hh. }
